@@ -151,7 +151,7 @@ func c16Gen(c *run.Ctx, r *run.Rng, exact bool) *c16Graphic {
 				case 0:
 					col = ivg.RGBAColor(gen.Premul(r))
 				case 1:
-					col = ivg.PaletteIndexColor(uint8(r.Intn(64)))
+					col = ivg.PaletteIndexColor(r.Byte())
 				default:
 					col = ivg.BlendColor(r.Byte(), 0x80|uint8(r.Intn(64)), uint8(r.Intn(125)))
 				}
@@ -169,7 +169,7 @@ func c16Gen(c *run.Ctx, r *run.Rng, exact bool) *c16Graphic {
 			switch k {
 			case 0: // palette-initialised register (or one holding a resolved stop colour), untouched
 			case 1:
-				add(rec.Op{K: rec.KSetCReg, Adj: adj, Col: ivg.PaletteIndexColor(uint8(r.Intn(64)))})
+				add(rec.Op{K: rec.KSetCReg, Adj: adj, Col: ivg.PaletteIndexColor(r.Byte())})
 			case 2:
 				add(rec.Op{K: rec.KSetCReg, Adj: adj, Col: ivg.BlendColor(r.Byte(), 0x80|uint8(r.Intn(64)), 0xc0|uint8(r.Intn(64)))})
 			default:
